@@ -109,10 +109,7 @@ structure Inputs where
 
 /-! ## state -/
 
-structure EmSt where
-  s : Emission.State := {}
-  cov : List (Nat × Bool) := []       -- `_tech_spat_covs`
-  deriving Repr, Inhabited
+abbrev Cov := List (Nat × Bool)       -- `_tech_spat_covs` of one emission
 
 structure MethSt where
   sched : Sched.State := {}           -- routine / stationary schedule of the method
@@ -122,14 +119,17 @@ structure MethSt where
 
 instance : Inhabited MethSt := ⟨{}⟩
 
+/-- `ss` and `covs` run parallel to `World.ems` -/
 structure St where
-  ems : List EmSt
+  ss : List Emission.State
+  covs : List Cov
   srcs : List Heap.Src
   latestTag : Nat → Int := fun _ => 0    -- `Site._latest_tagging_survey_date`
   ms : List MethSt
 
 def init (w : World) (prog : Program) : St :=
-  { ems := w.ems.map (fun _ => {}), srcs := w.srcs, ms := prog.map (fun _ => {}) }
+  { ss := w.ems.map (fun _ => {}), covs := w.ems.map (fun _ => []), srcs := w.srcs,
+    ms := prog.map (fun _ => {}) }
 
 /-! ## small wrappers -/
 
@@ -138,18 +138,17 @@ def lookupD {α} (tbl : List (Nat × α)) (f : Nat → α) (i : Nat) : α :=
   | [] => f i
   | kv :: t => if kv.1 = i then kv.2 else lookupD t f i
 
-/-- the identity on functions (`memoOn_eq`), evaluated into a table on the given keys so that the
-closure chains of function-valued state do not grow with the number of simulated days -/
-@[inline] def memoOn {α} (keys : List Nat) (f : Nat → α) : Nat → α :=
-  let tbl := keys.map (fun k => (k, f k))
-  lookupD tbl f
+/-- the table of `f` on the given keys: `lookupD (tabulate keys f) f = f` (`lookupD_tabulate`).  Used
+where function-valued state is handed to the next day, so that the closure chains do not grow with
+the number of simulated days (the table is built strictly, before the closure is formed) -/
+def tabulate {α} (keys : List Nat) (f : Nat → α) : List (Nat × α) := keys.map (fun k => (k, f k))
 
 /-- the weather outcome as a value / envelope pair for `Crew.workable` -/
 def wxOf (b : Bool) : Crew.Wx := { temp := if b then 0 else 1, wind := 0, precip := 0 }
 def env0 : Crew.Envelope := { tempLo := 0, tempHi := 0, windLo := 0, windHi := 0, precipLo := 0, precipHi := 0 }
 
 def methodP (c : MethodCfg) : Crew.MethodP :=
-  Cost.methodP c.cost c.stationary c.considerWeather env0 (if c.tags then 3 else 1)
+  Cost.methodP c.cost c.stationary c.considerWeather env0
 
 def nCrews (c : MethodCfg) : Nat := Cost.crewCount c.stationary c.crews
 
@@ -188,26 +187,37 @@ def sensorCfg (w : World) (c : MethodCfg) (site : Nat) : Sensor.Cfg :=
   else .site c.err
 
 /-- an emission as a survey of method `m` on day `n` sees it, with the rolls it may draw -/
-def mkX (inp : Inputs) (n m : Nat) (info : EmInfo) (e : EmSt) : Sensor.Emis × Sensor.Rolls :=
+def mkX (inp : Inputs) (n m : Nat) (info : EmInfo) (s : Emission.State) (cov : Cov) :
+    Sensor.Emis × Sensor.Rolls :=
   ({ id := info.idx, site := info.site, eqg := info.eqg, comp := info.comp, rate := info.rate,
-     active := decide (e.s.status = .active), emitting := Emission.isEmitting info.p e.s, cov := e.cov },
+     active := decide (s.status = .active), emitting := Emission.isEmitting info.p s, cov := cov },
    { spatial := inp.spatial n m info.idx, temporal := inp.temporal n m info.idx })
 
-def mkXs (w : World) (inp : Inputs) (n m : Nat) (ems : List EmSt) : List (Sensor.Emis × Sensor.Rolls) :=
-  List.zipWith (mkX inp n m) w.ems ems
+def zip3With {α β γ δ} (f : α → β → γ → δ) : List α → List β → List γ → List δ
+  | a :: as, b :: bs, c :: cs => f a b c :: zip3With f as bs cs
+  | _, _, _ => []
 
-def setCovs (ems : List EmSt) (after : List Sensor.Emis) : List EmSt :=
-  List.zipWith (fun e a => { e with cov := a.cov }) ems after
+def mkXs (w : World) (inp : Inputs) (n m : Nat) (ss : List Emission.State) (covs : List Cov) :
+    List (Sensor.Emis × Sensor.Rolls) :=
+  zip3With (mkX inp n m) w.ems ss covs
+
+/-- the coverage stores after a survey looked at the emissions (positions the survey did not see keep
+theirs) -/
+def setCovs : List Cov → List Sensor.Emis → List Cov
+  | [], _ => []
+  | c :: cs, [] => c :: cs
+  | _ :: cs, a :: as => a.cov :: setCovs cs as
 
 /-! ## one method on one day -/
 
-/-- a completed survey with the report the sensor produced (`rep = Sensor.surveyOf sv`, `done_rep`) -/
+/-- a completed survey with the report the sensor produced -/
 structure Done where
-  m : Nat
   sv : Sensor.SurveyIn
-  rep : Sensor.SiteRep
-  targets : List (Nat × Nat)         -- `Sensor.tagTargets rep`
   out : Crew.OutRec                  -- the crew record of the visit that completed the survey
+  rep : Sensor.SiteRep
+  targets : List (Nat × Nat)
+  hrep : rep = Sensor.surveyOf sv
+  htargets : targets = Sensor.tagTargets rep
 
 /-- what a method did on a day (everything the timeseries row and the theorems refer to) -/
 structure MethTrace where
@@ -225,123 +235,141 @@ structure MethTrace where
 structure Acc where
   ms : List MethSt
   latestTag : Nat → Int
-  ems : List EmSt                    -- emission states after activation; only `cov` changes here
+  covs : List Cov
   traces : List MethTrace := []
 
-/-- sensor part of a completed survey: `survey_site` → `detect_emissions` -/
-def surveyOne (w : World) (inp : Inputs) (n m : Nat) (c : MethodCfg)
-    (acc : List EmSt × List Done) (o : Crew.OutRec) : List EmSt × List Done :=
+/-- sensor part of a completed survey: `survey_site` → `detect_emissions`; `ss` are the emission
+states after activation (the same for every method of the day: tagging and detection records do not
+change what a sensor sees, `Props/Sim.lean: events_view`) -/
+def surveyOne (w : World) (inp : Inputs) (n m : Nat) (c : MethodCfg) (ss : List Emission.State)
+    (acc : List Cov × List Done) (o : Crew.OutRec) : List Cov × List Done :=
   let site := o.req.site
-  let xs := mkXs w inp n m acc.1
+  let xs := mkXs w inp n m ss acc.1
   let sv : Sensor.SurveyIn :=
     { cfg := sensorCfg w c site, m := m, trd := c.trd, mdl := c.mdl, site := site, xs := xs }
-  let rep := Sensor.surveyOf sv
   (setCovs acc.1 (Sensor.after m site xs),
-   acc.2 ++ [{ m := m, sv := sv, rep := rep, targets := Sensor.tagTargets rep, out := o }])
+   acc.2 ++ [{ sv := sv, out := o, rep := Sensor.surveyOf sv, targets := Sensor.tagTargets (Sensor.surveyOf sv),
+               hrep := rfl, htargets := rfl }])
 
 def completed (dd : Crew.DaySt) : List Crew.OutRec := dd.out.filter (fun o => o.rep.complete)
 
-def surveyAll (w : World) (inp : Inputs) (n m : Nat) (c : MethodCfg) (ems : List EmSt)
-    (dd : Crew.DaySt) : List EmSt × List Done :=
-  (completed dd).foldl (surveyOne w inp n m c) (ems, [])
+def surveyAll (w : World) (inp : Inputs) (n m : Nat) (c : MethodCfg) (ss : List Emission.State)
+    (covs : List Cov) (dd : Crew.DaySt) : List Cov × List Done :=
+  (completed dd).foldl (surveyOne w inp n m c ss) (covs, [])
 
 def tagCount (dones : List Done) : Int := (dones.map (fun d => (d.targets.length : Int))).sum
 
 def deploy (c : MethodCfg) (inp : Inputs) (n : Nat) (reqs : List Crew.Req) : Crew.DaySt :=
   Crew.deployDay (methodP c) (budgetMin c (inp.daylightMin n)) (nCrews c) reqs
 
-/-- a method with its own routine / stationary schedule: get_workplan → deploy_crews → update -/
-structure OwnDay where
+def withTag (sh : FollowUp.Shared) (lt : Nat → Int) : FollowUp.Shared := { sh with latestTag := lt }
+
+/-- get_workplan → deploy_crews of one method -/
+structure PlanDay where
   issued : List Nat
   keys : List Nat
   reqs : List Crew.Req
   dd : Crew.DaySt
-  sched : Sched.State
 
-def ownScheduleDay (c : MethodCfg) (inp : Inputs) (n m : Nat) (s : Sched.State) : OwnDay :=
-  let sc := schedCfg c
-  let date := inp.date n
-  let s1 := Sched.requestPhase sc date s
-  let tr := Sched.dayTrace sc { date := date, out := fun _ => .untouched } s
-  let reqs := tr.keys.map (mkReq c inp n m (fun i => toCrewRep ((s1.pl i).rep.getD {})))
-  let dd := deploy c inp n reqs
+def planDay (c : MethodCfg) (inp : Inputs) (n m : Nat) (me : MethSt) (lt : Nat → Int) : PlanDay :=
+  match c.role with
+  | .followUp =>
+    let keys := (FollowUp.planned (c.crews * c.cap) (withTag me.sh lt)).map (·.site)
+    let reqs := keys.map (mkReq c inp n m me.rep)
+    { issued := [], keys := keys, reqs := reqs, dd := deploy c inp n reqs }
+  | _ =>
+    let sc := schedCfg c
+    let date := inp.date n
+    let s1 := Sched.requestPhase sc date me.sched
+    let tr := Sched.dayTrace sc { date := date, out := fun _ => .untouched } me.sched
+    let reqs := tr.keys.map (mkReq c inp n m (fun i => toCrewRep ((s1.pl i).rep.getD {})))
+    { issued := tr.issued, keys := tr.keys, reqs := reqs, dd := deploy c inp n reqs }
+
+/-- `GenericSchedule.update` of a method with its own routine / stationary schedule -/
+def ownUpdate (c : MethodCfg) (inp : Inputs) (n : Nat) (pd : PlanDay) (s : Sched.State) : Sched.State :=
   let out : Nat → Sched.Outcome := fun i =>
-    match outOf dd i with
+    match outOf pd.dd i with
     | some o => outcomeOf o
     | none => .untouched
-  let s' := Sched.scheduleDay sc { date := date, out := out } s
-  { issued := tr.issued, keys := tr.keys, reqs := reqs, dd := dd,
-    sched := { s' with pl := memoOn c.sites s'.pl } }
+  let s' := Sched.scheduleDay (schedCfg c) { date := inp.date n, out := out } s
+  let tbl := tabulate c.sites s'.pl
+  { s' with pl := lookupD tbl s'.pl }
 
-def mkTrace (m : Nat) (c : MethodCfg) (inp : Inputs) (n : Nat) (issued keys : List Nat) (reqs : List Crew.Req)
-    (dd : Crew.DaySt) (dones : List Done) (flags tags : Option Int) : MethTrace :=
-  { m := m, cfg := c, issued := issued, keys := keys, reqs := reqs, budget := budgetMin c (inp.daylightMin n),
-    dd := dd, dones := dones, flags := flags, tags := tags }
+/-- the `DetectionRecord` of a completed screening survey (measured site rate, survey date) -/
+def recOfDone (n : Nat) (d : Done) : FollowUp.Rec :=
+  { date := (n : Int), site := d.sv.site, rate := ((d.rep.measured : Int) : Rat) }
 
-def withTag (sh : FollowUp.Shared) (lt : Nat → Int) : FollowUp.Shared := { sh with latestTag := lt }
+structure Post where
+  ms : List MethSt
+  latestTag : Nat → Int
+  flags : Option Int
+  tags : Option Int
 
-/-- `Program.do_daily_program_deployment`, body of the loop for the method at position `m` -/
-def methodStep (w : World) (inp : Inputs) (n : Nat) (acc : Acc) (m : Nat) (c : MethodCfg) : Acc :=
-  let me := acc.ms.getD m {}
+/-- schedule.update → method.update of one method -/
+def postStep (c : MethodCfg) (inp : Inputs) (n m : Nat) (ms : List MethSt) (lt : Nat → Int)
+    (pd : PlanDay) (dones : List Done) : Post :=
+  let me := ms.getD m {}
   match c.role with
   | .routine =>
-    let od := ownScheduleDay c inp n m me.sched
-    let sv := surveyAll w inp n m c acc.ems od.dd
     -- a completed survey of a tagging method stamps the site
-    let lt := sv.2.foldl (fun f d => FollowUp.setI f d.sv.site (n : Int)) acc.latestTag
-    { ms := acc.ms.set m { me with sched := od.sched }, latestTag := lt, ems := sv.1,
-      traces := acc.traces ++ [mkTrace m c inp n od.issued od.keys od.reqs od.dd sv.2 none (some (tagCount sv.2))] }
+    { ms := ms.set m { me with sched := ownUpdate c inp n pd me.sched },
+      latestTag := dones.foldl (fun f d => FollowUp.setI f d.sv.site (n : Int)) lt,
+      flags := none, tags := some (tagCount dones) }
   | .screen fu =>
-    let od := ownScheduleDay c inp n m me.sched
-    let sv := surveyAll w inp n m c acc.ems od.dd
     -- `Method.deploy_crews`: the detection record of a completed survey is filed under the survey date
-    let scr1 := sv.2.foldl (fun s d => FollowUp.screen { date := (n : Int), site := d.sv.site,
-                                                         rate := ((d.rep.measured : Int) : Rat) } s) me.scr
-    let ms1 := acc.ms.set m { me with sched := od.sched, scr := scr1 }
+    let scr1 := dones.foldl (fun s d => FollowUp.screen (recOfDone n d) s) me.scr
+    let ms1 := ms.set m { me with sched := ownUpdate c inp n pd me.sched, scr := scr1 }
     -- `SiteLevelMethod.update`: release, pool, flag, follow-up queue of the bound schedule
     let fuSt := ms1.getD fu {}
-    let st := FollowUp.dailyUpdate c.fup (n : Int) { m := scr1, sh := withTag fuSt.sh acc.latestTag }
+    let st := FollowUp.dailyUpdate c.fup (n : Int) { m := scr1, sh := withTag fuSt.sh lt }
     -- a request withdrawn from the follow-up queue takes its planner (and its report) with it
     let rep' : Nat → Crew.Report := fun i => if st.sh.dropped i = fuSt.sh.dropped i then fuSt.rep i else {}
     let ms2 := ms1.set fu { fuSt with sh := st.sh, rep := rep' }
-    let ms3 := ms2.set m { (ms2.getD m {}) with scr := st.m }
-    { ms := ms3, latestTag := acc.latestTag, ems := sv.1,
-      traces := acc.traces ++ [mkTrace m c inp n od.issued od.keys od.reqs od.dd sv.2 (some (st.m.nflags : Int)) none] }
+    { ms := ms2.set m { (ms2.getD m {}) with scr := st.m }, latestTag := lt,
+      flags := some (st.m.nflags : Int), tags := none }
   | .followUp =>
     let capT := c.crews * c.cap
-    let sh0 := withTag me.sh acc.latestTag
-    let keys := (FollowUp.planned capT sh0).map (·.site)
-    let reqs := keys.map (mkReq c inp n m me.rep)
-    let dd := deploy c inp n reqs
     let outs : Nat → FollowUp.Outcome := fun i =>
-      match outOf dd i with
+      match outOf pd.dd i with
       | some o => fuOutcomeOf o
       | none => .unattended
-    let sh1 := FollowUp.followUpDay capT (n : Int) outs sh0
+    let sh1 := FollowUp.followUpDay capT (n : Int) outs (withTag me.sh lt)
     let rep' : Nat → Crew.Report := fun i =>
-      match outOf dd i with
+      match outOf pd.dd i with
       | some o => if o.rep.complete then {} else o.rep
       | none => me.rep i
-    let sv := surveyAll w inp n m c acc.ems dd
-    { ms := acc.ms.set m { me with sh := sh1, rep := memoOn keys rep' }, latestTag := sh1.latestTag, ems := sv.1,
-      traces := acc.traces ++ [mkTrace m c inp n [] keys reqs dd sv.2 none (some (tagCount sv.2))] }
+    let tbl := tabulate pd.keys rep'
+    { ms := ms.set m { me with sh := sh1, rep := lookupD tbl rep' }, latestTag := sh1.latestTag,
+      flags := none, tags := some (tagCount dones) }
 
-def stepMethods (w : World) (inp : Inputs) (n : Nat) : Nat → List MethodCfg → Acc → Acc
+def mkTrace (m : Nat) (c : MethodCfg) (inp : Inputs) (n : Nat) (pd : PlanDay) (dones : List Done)
+    (flags tags : Option Int) : MethTrace :=
+  { m := m, cfg := c, issued := pd.issued, keys := pd.keys, reqs := pd.reqs,
+    budget := budgetMin c (inp.daylightMin n), dd := pd.dd, dones := dones, flags := flags, tags := tags }
+
+/-- `Program.do_daily_program_deployment`, body of the loop for the method at position `m` -/
+def methodStep (w : World) (inp : Inputs) (n : Nat) (ss : List Emission.State) (acc : Acc) (m : Nat)
+    (c : MethodCfg) : Acc :=
+  let pd := planDay c inp n m (acc.ms.getD m {}) acc.latestTag
+  let sv := surveyAll w inp n m c ss acc.covs pd.dd
+  let po := postStep c inp n m acc.ms acc.latestTag pd sv.2
+  { ms := po.ms, latestTag := po.latestTag, covs := sv.1,
+    traces := acc.traces ++ [mkTrace m c inp n pd sv.2 po.flags po.tags] }
+
+def stepMethods (w : World) (inp : Inputs) (n : Nat) (ss : List Emission.State) :
+    Nat → List MethodCfg → Acc → Acc
   | _, [], acc => acc
-  | m, c :: cs, acc => stepMethods w inp n (m + 1) cs (methodStep w inp n acc m c)
+  | m, c :: cs, acc => stepMethods w inp n ss (m + 1) cs (methodStep w inp n ss acc m c)
 
 /-! ## emission events of a day -/
 
 /-- what a completed survey sends to one emission: a tagging call of its component (component level,
 measured rate > 0 there) or a detection record (site level, the emission was visible and the site
-rate reached the detection limit) -/
+rate reached the detection limit); equals `Sensor.surveyEventsE` (`evOfDone_eq`) -/
 def evOfDone (info : EmInfo) (d : Done) : List Emission.Ev :=
-  match d.sv.cfg with
-  | .site _ => if d.rep.recorded.contains info.idx then [.detect d.m] else []
-  | _ =>
-    if d.sv.site = info.site ∧ d.targets.contains (info.eqg, info.comp) then
-      [.tag { company := d.m, trd := d.sv.trd }]
-    else []
+  (if d.sv.site = info.site ∧ d.targets.contains (info.eqg, info.comp) then
+      [Emission.Ev.tag { company := d.sv.m, trd := d.sv.trd }] else []) ++
+  (if d.sv.site = info.site ∧ d.rep.recorded.contains info.idx then [Emission.Ev.detect d.sv.m] else [])
 
 def evsOf (info : EmInfo) (dones : List Done) : List Emission.Ev := dones.flatMap (evOfDone info)
 
@@ -377,18 +405,20 @@ structure EmDay where
 
 def ended (x : EmDay) : Bool := decide (x.mid.status = .active) && !decide (x.fin.status = .active)
 
+def actI (x : EmDay) : Int := World.ind (decide (x.fin.status = .active))
+
+def sumDays (xs : List EmDay) (f : EmDay → Int) : Int := (xs.map f).sum
+
 /-- `update_emissions_state` + `EmisInfo` counters, as the code accumulates them -/
 def emRow (newCount : Int) (xs : List EmDay) : World.Row :=
-  let act (x : EmDay) : Int := World.ind (decide (x.fin.status = .active))
-  let sum (f : EmDay → Int) : Int := (xs.map f).sum
   { new := newCount,
-    active := sum act,
-    repaired := sum (fun x => World.ind (ended x && decide (x.fin.status = .repaired) && !decide (x.fin.by_ = .natural))),
-    natRepaired := sum (fun x => World.ind (ended x && decide (x.fin.status = .repaired) && decide (x.fin.by_ = .natural))),
-    expired := sum (fun x => World.ind (ended x && decide (x.fin.status = .expired))),
-    emis := sum (fun x => act x * x.info.rate),
-    emisMit := sum (fun x => if x.info.p.repairable then act x * x.info.rate else 0),
-    emisNonMit := sum (fun x => if x.info.p.repairable then 0 else act x * x.info.rate) }
+    active := sumDays xs actI,
+    repaired := sumDays xs (fun x => World.ind (ended x && decide (x.fin.status = .repaired) && !decide (x.fin.by_ = .natural))),
+    natRepaired := sumDays xs (fun x => World.ind (ended x && decide (x.fin.status = .repaired) && decide (x.fin.by_ = .natural))),
+    expired := sumDays xs (fun x => World.ind (ended x && decide (x.fin.status = .expired))),
+    emis := sumDays xs (fun x => actI x * x.info.rate),
+    emisMit := sumDays xs (fun x => if x.info.p.repairable then actI x * x.info.rate else 0),
+    emisNonMit := sumDays xs (fun x => if x.info.p.repairable then 0 else actI x * x.info.rate) }
 
 /-! ## the day -/
 
@@ -399,37 +429,42 @@ structure DayOut where
   newIds : List Nat
   days : List EmDay
 
-def activateEm (n : Nat) (newIds : List Nat) (info : EmInfo) (e : EmSt) : EmSt :=
-  if newIds.contains info.idx then { e with s := Emission.activate info.p (n : Int) e.s } else e
+/-- `Source.activate_emissions` seen from one emission: the ones the cursor hands out are activated -/
+def activateS (n : Nat) (newIds : List Nat) (info : EmInfo) (s : Emission.State) : Emission.State :=
+  if newIds.contains info.idx then Emission.activate info.p (n : Int) s else s
 
-def finishEm (n : Nat) (dones : List Done) (info : EmInfo) (e : EmSt) : EmDay :=
-  let mid := (evsOf info dones).foldl (fun s ev => Emission.applyEv info.p (n : Int) ev s) e.s
+def finishEm (n : Nat) (dones : List Done) (info : EmInfo) (s : Emission.State) : EmDay :=
+  let mid := (evsOf info dones).foldl (fun s ev => Emission.applyEv info.p (n : Int) ev s) s
   { info := info, mid := mid, fin := Emission.update info.p mid }
+
+def repSumOf (inp : Inputs) (days : List EmDay) : Int :=
+  (days.map (fun x => (Cost.bookOnUpdate x.info.p (inp.repairCost x.info.idx) x.mid).1)).sum
+def natSumOf (inp : Inputs) (days : List EmDay) : Int :=
+  (days.map (fun x => (Cost.bookOnUpdate x.info.p (inp.repairCost x.info.idx) x.mid).2)).sum
+
+def methodDays (cols : List MethCols) : List Cost.MethodDay :=
+  cols.map (fun c => { deploy := c.cost, upfront := c.upfront })
 
 /-- `LdarSim.run_simulation`, body of the day loop, for day index `n` -/
 def simDayOut (w : World) (prog : Program) (inp : Inputs) (n : Nat) (st : St) : DayOut :=
   -- activate emissions (cursor of every source)
   let r := st.srcs.map (Heap.activateSrc (n : Int))
   let newIds := (r.flatMap (·.1)).map (·.id)
-  let ems1 := List.zipWith (activateEm n newIds) w.ems st.ems
+  let ss1 := List.zipWith (activateS n newIds) w.ems st.ss
   -- deploy every method of the program
-  let acc := stepMethods w inp n 0 prog { ms := st.ms, latestTag := st.latestTag, ems := ems1 }
+  let acc := stepMethods w inp n ss1 0 prog { ms := st.ms, latestTag := st.latestTag, covs := st.covs }
   let dones := acc.traces.flatMap (·.dones)
   -- update every emission
-  let days := List.zipWith (finishEm n dones) w.ems acc.ems
-  let ems2 := List.zipWith (fun (e : EmSt) (x : EmDay) => { e with s := x.fin }) acc.ems days
-  let repCost := (days.map (fun x => (Cost.bookOnUpdate x.info.p (inp.repairCost x.info.idx) x.mid).1)).sum
-  let natCost := (days.map (fun x => (Cost.bookOnUpdate x.info.p (inp.repairCost x.info.idx) x.mid).2)).sum
+  let days := List.zipWith (finishEm n dones) w.ems ss1
   let cols := acc.traces.map colsOf
-  let crow := Cost.dailyRow (decide (n = 0)) (cols.map (fun c => { deploy := c.cost, upfront := c.upfront })) repCost natCost
-  { st := { ems := ems2, srcs := r.map (·.2), latestTag := acc.latestTag, ms := acc.ms },
+  let crow := Cost.dailyRow (decide (n = 0)) (methodDays cols) (repSumOf inp days) (natSumOf inp days)
+  { st := { ss := days.map (·.fin), covs := acc.covs, srcs := r.map (·.2), latestTag := acc.latestTag, ms := acc.ms },
     row := { em := emRow (newIds.length : Nat) days, cost := crow,
              tagged := (cols.map (fun c => c.tags.getD 0)).sum, meth := cols },
     traces := acc.traces, newIds := newIds, days := days }
 
 def simDay (w : World) (prog : Program) (inp : Inputs) (n : Nat) (st : St) : St × TsRow :=
-  let o := simDayOut w prog inp n st
-  (o.st, o.row)
+  ((simDayOut w prog inp n st).st, (simDayOut w prog inp n st).row)
 
 /-- state at the start of day `n` (after `n` simulated days) -/
 def simState (w : World) (prog : Program) (inp : Inputs) : Nat → St
@@ -443,7 +478,7 @@ def simRow (w : World) (prog : Program) (inp : Inputs) (n : Nat) : TsRow :=
 def simRun (w : World) (prog : Program) (inp : Inputs) (N : Nat) : St × List TsRow :=
   (simState w prog inp N, (List.range N).map (simRow w prog inp))
 
-/-- the same, computed in one pass (what the driver executes; `runAcc_eq`) -/
+/-- the same, computed in one pass (`runAcc_eq`) -/
 def runAcc (w : World) (prog : Program) (inp : Inputs) : Nat → St × List TsRow
   | 0 => (init w prog, [])
   | n + 1 =>
@@ -467,16 +502,31 @@ structure Rec where
   by_ : Emission.By
   initDetect : Option Int
   initDetectBy : Option Nat
-  cov : List (Nat × Bool)
-  deriving Repr, Inhabited
+  deriving DecidableEq, Repr, Inhabited
 
-def recOf (N : Nat) (info : EmInfo) (e : EmSt) : Rec :=
-  { idx := info.idx, present := decide (e.s.status ≠ .inactive), status := e.s.status,
-    activeDays := e.s.activeDays, emitDays := Emission.emitDays info.p e.s, start := info.p.start,
-    endDate := e.s.endDate, theoryEnd := info.p.start + info.p.nrd,
-    mitDays := Emission.mitDays info.p e.s (Emission.summaryEndArg N), tagged := e.s.tagged, by_ := e.s.by_,
-    initDetect := e.s.initDetect, initDetectBy := e.s.initDetectBy, cov := e.cov }
+def recOf (N : Nat) (info : EmInfo) (s : Emission.State) : Rec :=
+  { idx := info.idx, present := decide (s.status ≠ .inactive), status := s.status,
+    activeDays := s.activeDays, emitDays := Emission.emitDays info.p s, start := info.p.start,
+    endDate := s.endDate, theoryEnd := info.p.start + info.p.nrd,
+    mitDays := Emission.mitDays info.p s (Emission.summaryEndArg N), tagged := s.tagged, by_ := s.by_,
+    initDetect := s.initDetect, initDetectBy := s.initDetectBy }
 
-def records (w : World) (N : Nat) (st : St) : List Rec := List.zipWith (recOf N) w.ems st.ems
+def records (w : World) (N : Nat) (st : St) : List Rec := List.zipWith (recOf N) w.ems st.ss
+
+/-! ## well-formed scenarios
+
+What `Source.generate_emissions` guarantees (C16 `generate_sorted`) and how the harness numbers the
+emissions: every pending list is sorted by start date, and the pending lists, read in infrastructure
+order, list the emissions `0, 1, 2, …` with their own start dates.  Evaluated by the driver on every
+scenario it is given (`wf=`). -/
+
+def aligned : Nat → List Heap.EmId → List EmInfo → Bool
+  | _, [], [] => true
+  | k, x :: xs, info :: infos =>
+    decide (x.id = k) && decide (info.idx = k) && decide (x.start = info.p.start) && aligned (k + 1) xs infos
+  | _, _, _ => false
+
+def wfWorld (w : World) : Bool :=
+  w.srcs.all (fun s => Heap.sortedByStart s.all) && aligned 0 (w.srcs.flatMap (·.all)) w.ems
 
 end LdarModel.Sim
